@@ -8,25 +8,17 @@ package protobuf
 // ---------------------------------------------------------------- C12: decoders never crash
 // Both codec entry points install, before anything else runs, a deferred closure that turns
 // any panic raised below (converter nil dereferences, uuid.Must, third-party unmarshalling)
-// into a non-nil error result.
+// into a non-nil error result.  `recoverguard` implies the contract of the deferred function (closure
+// or named helper): with recover() yielding a non-nil value it does not panic itself and leaves the
+// named error result non-nil.
 
 //@ func (*encoder).EncodeTo
 //@   props C12
 //@   recoverguard
-//@ func (*encoder).EncodeTo$1
-//@   props C12
-//@   recovers
-//@   nopanic
-//@   ensures er != nil
 
 //@ func (*encoder).DecodeFrom
 //@   props C12
 //@   recoverguard
-//@ func (*encoder).DecodeFrom$1
-//@   props C12
-//@   recovers
-//@   nopanic
-//@   ensures er != nil
 
 // pooled scratch buffers are always emptied before they go back to the pool (otherwise a
 // rejected frame leaks into the next decode: wrong byte counts or spurious errors)
